@@ -338,7 +338,9 @@ func (d *Drv) batchOf(op *Op) ecs.Batch {
 		sf := &d.SF[op.SF]
 		spec := &d.M.Filters[op.SF].Spec
 		f := sf.twin
-		if op.Cached {
+		if op.Cached || (!d.M.Filters[op.SF].Registered && d.opIdx%2 == 0) {
+			// (while it is not registered, the instance that ops register and unregister is used as well: what a
+			// Batch or Query call leaves behind in it must not leak into a later registration)
 			f = sf.inst
 		}
 		return f.Batch(d.rels(op.QRels, d.filterOrder(spec), d.opIdx%3))
